@@ -127,9 +127,68 @@ def reaches(info: Dict[str, Any], src: str, dst: str) -> bool:
     return False
 
 
+def dynamic_table_writers() -> Dict[str, List[str]]:
+    """Who stores into the declaration tables, by experiment: the real equate / translate / convert
+    run on scratch units with _ratios/_offsets replaced by logging tables; every function of
+    conversions.py on the call stack of a store is a (transitive) writer.  The AST cannot see a
+    store through an alias (`table[source][target] = value` with `table` taken from a record)."""
+    import sys as _sys
+
+    import measured
+    from measured import Length, conversions
+
+    seen: Dict[str, set] = {"equate": set(), "translate": set(), "convert": set()}
+    current = [""]
+
+    class Row(dict):
+        def __setitem__(self, k: Any, v: Any) -> None:
+            f = _sys._getframe(1)
+            while f is not None:
+                if f.f_code.co_filename == conversions.__file__:
+                    seen[current[0]].add(f.f_code.co_name)
+                f = f.f_back
+            dict.__setitem__(self, k, v)
+
+    class Table(dict):
+        def __missing__(self, k: Any) -> Any:
+            r = Row()
+            dict.__setitem__(self, k, r)
+            return r
+
+    a, b, c = (Length.unit(f"c08-probe-{i}", f"c08p{i}") for i in "abc")
+    saved = (conversions._ratios, conversions._offsets)
+    conversions._ratios, conversions._offsets = Table(), Table()
+    try:
+        current[0] = "equate"
+        conversions.equate(1 * a, 2 * b)
+        current[0] = "translate"
+        conversions.translate(c, 3 * a)
+        current[0] = "convert"
+        for (x, y) in ((a, b), (b, a), (c, b)):
+            try:
+                conversions.convert(1 * x, y)
+            except Exception:
+                pass
+    finally:
+        conversions._ratios, conversions._offsets = saved
+        for f in (conversions._find_path, conversions._plan_conversion):
+            if hasattr(f, "cache_clear"):
+                f.cache_clear()
+    return {k: sorted(v) for k, v in seen.items()}
+
+
 def machine() -> Dict[str, Any]:
     info = analyse(CONV)
     memo_tables = info.pop("__memo_tables__")["names"]
+    # stores the AST cannot attribute (aliases): add what the experiment shows
+    dyn = dynamic_table_writers()
+    for entry, fns in dyn.items():
+        for fn in fns:
+            if fn in info and not info[fn]["writes_t"]:
+                info[fn]["writes_t"] = {"tables"}
+                if entry == "convert" or fn not in ("equate", "translate"):
+                    # a helper that stores: a direct writer (reached from the declaring entry points or not)
+                    info[fn]["writes"] = {"tables"}
     # cache of a function: its lru_cache (named after it) or the memo table it stores into
     cache_of: Dict[str, str] = {}
     for n, d in info.items():
